@@ -371,3 +371,27 @@ func zzH_C14_optptr() {
 	zzverif.AssertKF(len(enc) <= len(buf) && bytes.Equal(enc, buf[:len(enc)]), "an accepted optional pointer re-encodes to exactly the consumed bytes (one encoding per value)", "C14-nil-tag-accepts-empty-list", emptyList)
 	zzverif.Reach("end")
 }
+
+// zzH_C14_stream_sequence: two unsigned integers read one after the other from ONE stream
+// (the stream keeps a scratch buffer between reads): each comes back as itself, whatever
+// the other was - in particular a short integer after a full 8-byte one.
+func zzH_C14_stream_sequence() {
+	enc := func(x uint64) []byte {
+		if x == 0 {
+			return []byte{0x80}
+		}
+		if x < 0x80 {
+			return []byte{byte(x)}
+		}
+		be := zzC14BE(x)
+		return append([]byte{0x80 + byte(len(be))}, be...)
+	}
+	x, y := zzverif.U64("first"), zzverif.U64("second")
+	in := append(enc(x), enc(y)...)
+	s := NewStream(bytes.NewReader(in), uint64(len(in)))
+	gx, err1 := s.Uint()
+	gy, err2 := s.Uint()
+	zzverif.Assert(err1 == nil && gx == x, "the first integer of a stream decodes to itself")
+	zzverif.Assert(err2 == nil && gy == y, "the second integer of the same stream decodes to itself, whatever was read before it")
+	zzverif.Reach("end")
+}
